@@ -75,7 +75,7 @@ lem('c18_auth_basic', ['htp_parsers.c'], AUTH_H.replace('CASES', cases('C', 5, 9
     ['header value: every byte string of length 5..9 ("Basic" + up to 4 bytes); value lengths are enumerated constants; shorter values are excluded by the caller htp_parse_authorization (prefix test)',
      'htp_base64_decode_mem replaced by a stand-in with the same allocation pattern and an ARBITRARY decoded string of 0..4 bytes (not longer than its input) (superset of what base64 can produce); real bstr.c linked; the real decoder is exercised by unit c18_base64_decode_mem',
      'KNOWN_F_C18_AUTH_BASIC: the harness NULLs request_auth_username after an HTP_ERROR return (finding c18_auth_basic); everything else is checked'],
-    defs={'AUTHN': 9, 'AUTHMIN': 5, 'AUTH_BASIC': 1, 'KNOWN_F_C18_AUTH_BASIC': 1}, link=['bstr.c'], unwind=16)
+    defs={'AUTHN': 9, 'AUTHMIN': 5, 'AUTH_BASIC': 1}, link=['bstr.c'], unwind=16)
 
 # ======================================================================================================================
 # 2. host[:port] parsing ; htp_uri_free (CONNECT target) / the caller's frees (Host header)
@@ -104,7 +104,7 @@ HPA = ['input: every byte string of length exactly HPN=5 (shorter ones = white-s
 lem('c18_uri_hostport', ['htp_util.c'], URI_HP_H,
     'htp_parse_uri_hostport(connp, target, tx->parsed_uri_raw) ; htp_uri_free: no double free / use after free / leak whichever allocation (host name, port text) fails',
     HPA + ['KNOWN_F_C18_HOSTPORT: the harness NULLs uri->hostname after an HTP_ERROR return (finding c18_hostport); everything else is checked'],
-    defs={'HPN': 5, 'C18_MEMCHR_MODEL': 1, 'C18_VALIDATE_HOSTNAME_STUB': 1, 'KNOWN_F_C18_HOSTPORT': 1}, link=['bstr.c'], unwind=8, pre_instrument=RC_VALIDATE)
+    defs={'HPN': 5, 'C18_MEMCHR_MODEL': 1, 'C18_VALIDATE_HOSTNAME_STUB': 1}, link=['bstr.c'], unwind=8, pre_instrument=RC_VALIDATE)
 HDR_HP_H = HP_COMMON + r'''
 static void hp_case(const unsigned char *a, int want_port) {
   bstr *in = c18_bstr(HPN, a); if (in == NULL) return;
@@ -146,7 +146,7 @@ lem('c18_conn_open', ['htp_connection.c'], CONN_H,
     ['addresses: NULL or any C string of <= 3 characters; ports, timestamp arbitrary; real htp_list.c linked',
      'the connection holds no transaction and no log message (htp_tx_destroy_incomplete asserted unreachable)',
      'KNOWN_F_C18_CONN_OPEN: the harness NULLs conn->client_addr after an HTP_ERROR return (finding c18_conn_open); everything else is checked'],
-    defs={'KNOWN_F_C18_CONN_OPEN': 1}, link=['htp_list.c'], unwind=6, min_obl=30)
+    defs={}, link=['htp_list.c'], unwind=6, min_obl=30)
 
 # ======================================================================================================================
 # 4. multipart Content-Disposition ; htp_mpart_part_destroy
@@ -247,5 +247,5 @@ lem('c18_urlenc_body', ['htp_content_handlers.c'], URLB_H,
      'htp_tx_urldecode_params_inplace (no allocation; in-place decoder, C12/C15) exchanged at its call sites by a stand-in that requires a live bstr',
      'the other transaction fields are NULL (htp_tx_destroy_incomplete handles them by its NULL tests; no connection attached)',
      'KNOWN_F_C18_URLENC_PARAMS: after HTP_ERROR with the parser table still alive the harness rolls the partial move back (frees the htp_param_t records, empties tx->request_params) before the teardown (finding c18_urlenc_params); everything else is checked'],
-    defs={'KNOWN_F_C18_URLENC_PARAMS': 1}, link=TXLINK, unwind=6,
+    defs={}, link=TXLINK, unwind=6,
     pre_instrument=['--replace-calls', 'htp_tx_urldecode_params_inplace:c18_nop_urldecode'])
